@@ -10,4 +10,7 @@ CONSTANTS
   ValuelessEntries = {"get"}
   TextEntries = {"xml", "import_json", "import_xml"}
   TextVals <- MCTextVals
+  MultiEntries = {"set_dry", "set_apply", "sync", "get"}
+  CompoundPaths <- MCCompound
+  KeylessPaths <- MCKeyless
 CHECK_DEADLOCK FALSE
